@@ -47,6 +47,9 @@ GlobalGraph& GlobalGraph::operator=(const GlobalGraph& gg)
   nodeStructure_ = gg.nodeStructure_;
   edgeStructure_ = gg.edgeStructure_;
   root_ = gg.root_;
+  // a tree or DAG container assigned through its graph base class must not keep
+  // the validity it had cached for its former content
+  this->topologyHasChanged_();
 
   return *this;
 }
